@@ -379,7 +379,7 @@ func runPty(c *run.Ctx, cs *Case) bool {
 	}
 	// C: live in-place rendering on the pty
 	liveArgs := p.Args
-	if (p.Cols+len(p.Chunks))%3 == 0 {
+	if p.Cols < 60 || (p.Cols+len(p.Chunks))%3 == 0 {
 		// the switch spelled out with the value it has anyway: trimming stays on
 		liveArgs = append([]string{"--notrim=false"}, p.Args...)
 		c.Count("pty_runs_with_an_explicit_false_switch", 1)
